@@ -276,6 +276,10 @@ theorem stab_refine_measureAll (hT : TableauOK St n ph conjOf valid) {nonzero : 
   simp only [execOp] at h
   obtain ⟨s1, d1, s2, d2, w1, g1, hbody, hpost⟩ := stab_withBasisAll hT hwf h
   simp only [stabBackend, StabState.measureAllInto] at hbody
+  split at hbody
+  · exact absurd hbody runs_err_ok
+  split at hbody
+  · exact absurd hbody runs_err_ok
   obtain ⟨s0, c0, d0, h0, himp⟩ := stab_measureAll_fold (N := N) hT cbits.zipIdx _ _ _ _ _ hbody
   obtain ⟨e, _⟩ := runs_pure_iff.mp h0
   simp only [Except.ok.injEq, Prod.mk.injEq] at e
